@@ -571,27 +571,27 @@ package sstables
 // Loading the in-memory index: the index file is read to its end or the load fails - a read error never yields a shorter
 // index (keys silently absent) - and the index reader is closed on every path once it was opened.
 //@ func (*SliceKeyIndexLoader).Load
-//@   props C03 C09 C19
-//@   exit [C03:reader-errors-fail-the-load] (called(proto.NewReader, 0) && callres(proto.NewReader, 0, 1) != nil) ||
+//@   props C03 C09 C19 C11
+//@   exit [C03,C11:reader-errors-fail-the-load] (called(proto.NewReader, 0) && callres(proto.NewReader, 0, 1) != nil) ||
 //@        (called(ReaderI.Open, 0) && callres(ReaderI.Open, 0, 0) != nil) ==> r1 != nil && r0 == nil
 //@   exit [C19:index-reader-closed] called(ReaderI.Open, 0) && callres(ReaderI.Open, 0, 0) == nil ==> called(ReaderI.Close, 0)
-//@   exit [C03,C09:an-index-is-returned-only-after-the-end-of-the-file] r1 == nil ==> r0 != nil && called(ReaderI.ReadNext, 0) && errIs(callres(ReaderI.ReadNext, 0, 1), io.EOF)
+//@   exit [C03,C09,C11:an-index-is-returned-only-after-the-end-of-the-file] r1 == nil ==> r0 != nil && called(ReaderI.ReadNext, 0) && errIs(callres(ReaderI.ReadNext, 0, 1), io.EOF)
 //@   loop 0
 //@     invariant reader != nil && record != nil
-//@     invariant [C03,C09:a-failed-read-stops-the-load] called(ReaderI.ReadNext, 0) ==> callres(ReaderI.ReadNext, 0, 1) == nil
+//@     invariant [C03,C09,C11:a-failed-read-stops-the-load] called(ReaderI.ReadNext, 0) ==> callres(ReaderI.ReadNext, 0, 1) == nil
 
 // (SkipListIndexLoader.Load has the same shape but inserts into a skip list, whose Insert panics on a duplicate key: that
 //  precondition is a statement about the bytes of the index file, which no contract here can discharge - the loader stays
 //  with the bounded table_model driver, which runs every loader.)
 //@ func (*MapKeyIndexLoader).Load
-//@   props C03 C09 C19
-//@   exit [C03:reader-errors-fail-the-load] (called(proto.NewReader, 0) && callres(proto.NewReader, 0, 1) != nil) ||
+//@   props C03 C09 C19 C11
+//@   exit [C03,C11:reader-errors-fail-the-load] (called(proto.NewReader, 0) && callres(proto.NewReader, 0, 1) != nil) ||
 //@        (called(ReaderI.Open, 0) && callres(ReaderI.Open, 0, 0) != nil) ==> r1 != nil && r0 == nil
 //@   exit [C19:index-reader-closed] called(ReaderI.Open, 0) && callres(ReaderI.Open, 0, 0) == nil ==> called(ReaderI.Close, 0)
-//@   exit [C03,C09:an-index-is-returned-only-after-the-end-of-the-file] r1 == nil ==> r0 != nil && called(ReaderI.ReadNext, 0) && errIs(callres(ReaderI.ReadNext, 0, 1), io.EOF)
+//@   exit [C03,C09,C11:an-index-is-returned-only-after-the-end-of-the-file] r1 == nil ==> r0 != nil && called(ReaderI.ReadNext, 0) && errIs(callres(ReaderI.ReadNext, 0, 1), io.EOF)
 //@   loop 0
 //@     invariant reader != nil && record != nil
-//@     invariant [C03,C09:a-failed-read-stops-the-load] called(ReaderI.ReadNext, 0) ==> callres(ReaderI.ReadNext, 0, 1) == nil
+//@     invariant [C03,C09,C11:a-failed-read-stops-the-load] called(ReaderI.ReadNext, 0) ==> callres(ReaderI.ReadNext, 0, 1) == nil
 
 //@ func (*SliceKeyIndex).search
 //@   assumed
